@@ -366,3 +366,18 @@ for _sc in range(7):
           funcs=["generate_merge_patch", "cJSONUtils_GenerateMergePatchCaseSensitive", "merge_patch", "sort_object", "compare_json"], props=["C18"], covers=1, unwind=8,
           unwindset=[w.replace("cJSON_Duplicate_rec.0:3", "cJSON_Duplicate_rec.0:5").replace("cJSON_Delete.0:6", "cJSON_Delete.0:8") for w in _AP_UW] + ["generate_merge_patch:4", "generate_merge_patch.0:5", "merge_patch:4", "merge_patch.0:4", "cJSON_Compare:4", "cJSON_Compare.0:5", "cJSONUtils_GenerateMergePatch:3"], timeout=(600, 1800),
           defs=["-DGM_SCEN=%d" % _sc, "-DGM_CONCRETE=%d" % _seed, "-Dh_u_genmerge_b=h_u_genmerge_c_%d%d" % (_sc, _seed)])
+
+# ---------------------------------------------------------------- cJSON_Utils.c under DFCC: thin public wrappers (first contract units on this file)
+for _fn, _kind, _callee, _props in (("cJSONUtils_GetPointer", 0, "get_item_from_pointer", ["C15"]), ("cJSONUtils_GetPointerCaseSensitive", 0, "get_item_from_pointer", ["C15"]),
+                                    ("cJSONUtils_MergePatch", 1, "merge_patch", ["C18"]), ("cJSONUtils_MergePatchCaseSensitive", 1, "merge_patch", ["C18"]),
+                                    ("cJSONUtils_GenerateMergePatch", 1, "generate_merge_patch", ["C18"]), ("cJSONUtils_GenerateMergePatchCaseSensitive", 1, "generate_merge_patch", ["C18"]),
+                                    ("cJSONUtils_SortObject", 2, "sort_object", ["C19"]), ("cJSONUtils_SortObjectCaseSensitive", 2, "sort_object", ["C19"])):
+    U(_fn, "utils", "harness/u_wrappers.c", enforce=_fn, shape="U", props=_props + ["C20"], covers=2, replace=[_callee],
+      defs=["-DVF_UTILS_WRAPPERS", "-DUW_FN=%s" % _fn, "-DUW_KIND=%d" % _kind, "-DUW_H=h_%s" % _fn],
+      note="thin wrapper of cJSON_Utils.c: exactly one call of the worker with the caller's arguments and the promised case mode; its answer is returned; frame = the call log only")
+for _fn in ("cJSONUtils_ApplyPatches", "cJSONUtils_ApplyPatchesCaseSensitive"):
+    U(_fn, "utils", "harness/u_applypatches.c", enforce=_fn, shape="S", bound="patch array of <= 2 operations (each operation arbitrary: apply_patch replaced by a logging view)", props=["C16", "C20"], covers=5,
+      replace=["apply_patch", "cJSON_IsArray"], unwind=4, defs=["-DVF_UTILS_WRAPPERS", "-DAP_FN=%s" % _fn, "-DAP_H=h_%s" % _fn],
+      note="operations applied in document order to the same object with the promised case mode; stops at the first non-zero status and returns it; a non-array is refused with 1 and no call")
+U("cJSON_IsArray", "cjson", "harness/cJSON_IsArray.c", enforce="cJSON_IsArray", shape="U", props=["C06", "C16", "C20"], covers=2,
+  note="the contract text the cJSON_Utils.c units use in place of the function (specs/c_isarray.h)")
